@@ -32,6 +32,8 @@ Proof.
     apply hget_none_iff in Hnin. contradiction.
 Qed.
 
+Definition resp0 (h : hmap) : response := {| p_version := None; p_status := 200; p_headers := h; p_body := None |}.
+
 (* ------------------------------------------------------------------ headers_eq *)
 Lemma headers_eq_sound o1 o2 a b :
   (forall m, Permutation (o1 m) m) -> (forall m, Permutation (o2 m) m) -> wf a -> wf b ->
@@ -132,7 +134,6 @@ Proof.
 Qed.
 
 (* ------------------------------------------------------------------ the code before the fix *)
-Definition resp0 (h : hmap) : response := {| p_version := None; p_status := 200; p_headers := h; p_body := None |}.
 Lemma before_fix_empty_equals_anything :
   resp_eq_before_fix (fun m => m) (fun m => m) (resp0 []) (resp0 [([97], [[98]])]) = true /\
   ~ same_contents (resp0 []) (resp0 [([97], [[98]])]).
@@ -146,6 +147,35 @@ Lemma before_fix_equal_compare_unequal :
 Proof.
   split; [intros m; apply Permutation_sym; apply Permutation_rev|]. split; [reflexivity|apply same_contents_refl].
 Qed.
+
+(* ------------------------------------------------------------------ serialization *)
+Lemma resp_wire_order_free o1 o2 r :
+  (forall m, Permutation (o1 m) m) -> (forall m, Permutation (o2 m) m) -> wf (p_headers r) ->
+  resp_wire_headers o1 r = resp_wire_headers o2 r.
+Proof.
+  intros P1 P2 Hw. unfold resp_wire_headers. apply sort_entries_perm_eq.
+  - eapply wf_perm; [apply Permutation_sym; apply P1|exact Hw].
+  - eapply Permutation_trans; [apply P1|apply Permutation_sym; apply P2].
+Qed.
+(* equal contents serialize alike, whatever the oracles *)
+Lemma resp_wire_same_contents o1 o2 a b :
+  (forall m, Permutation (o1 m) m) -> (forall m, Permutation (o2 m) m) -> wf (p_headers a) -> wf (p_headers b) ->
+  same_contents a b -> resp_wire_headers o1 a = resp_wire_headers o2 b.
+Proof.
+  intros P1 P2 Wa Wb [_ [_ [_ Hh]]]. unfold resp_wire_headers. apply sort_entries_perm_eq.
+  - eapply wf_perm; [apply Permutation_sym; apply P1|exact Wa].
+  - eapply Permutation_trans; [apply P1|]. eapply Permutation_trans; [|apply Permutation_sym; apply P2].
+    apply NoDup_Permutation.
+    + apply (NoDup_map_inv fst). exact Wa.
+    + apply (NoDup_map_inv fst). exact Wb.
+    + intros [n vs]. split; intros Hin.
+      * apply hget_in. rewrite <- Hh. apply in_hget; assumption.
+      * apply hget_in. rewrite Hh. apply in_hget; assumption.
+Qed.
+Lemma resp_wire_before_fix_differs :
+  let r := resp0 [([97], [[49]]); ([98], [[50]])] in
+  resp_wire_headers_before_fix (fun m => m) r <> resp_wire_headers_before_fix (@rev _) r.
+Proof. vm_compute. discriminate. Qed.
 
 (* ------------------------------------------------------------------ derived equality *)
 Fixpoint val_size (v : val) : nat :=
